@@ -324,6 +324,10 @@ func init() {
 			for _, sp := range c09GenCallbacks(r, tier) {
 				out = append(out, mustJSON(sp))
 			}
+			// the byte content of the texts (c09_r6.go); last, so that the streams above keep their draws
+			for _, sp := range c09GenTexts(r, tier) {
+				out = append(out, mustJSON(sp))
+			}
 			return out
 		},
 		Run: func(spec json.RawMessage) CaseOut {
